@@ -173,3 +173,65 @@ Proof. reflexivity. Qed.
 (* a failing statement changes nothing (the table-level half of C08) *)
 Lemma step_failure_noop strict t s e : exec strict t s = Err e -> step strict t s = t.
 Proof. unfold step. intros ->. reflexivity. Qed.
+
+(* ---- REPLACE ------------------------------------------------------------------------------------ *)
+Lemma fold_set_nth_cols_length (upd : list nat) (n r : row) :
+  length (fold_left (fun acc f => set_nth f (nth f n VNull) acc) upd r) = length r.
+Proof. revert r. induction upd as [|f upd IH]; intros r; simpl; [reflexivity|]. rewrite IH. apply set_nth_length. Qed.
+
+Lemma fold_set_nth_cols_other (upd : list nat) (n r : row) j : ~ In j upd ->
+  nth j (fold_left (fun acc f => set_nth f (nth f n VNull) acc) upd r) VNull = nth j r VNull.
+Proof.
+  revert r. induction upd as [|f upd IH]; intros r H; simpl; [reflexivity|].
+  rewrite IH by (intros Hin; apply H; right; exact Hin).
+  apply set_nth_other. intros E. apply H. left. exact E.
+Qed.
+
+Lemma nth_error_combine_fst {A B} (l : list A) (l' : list B) i a b x :
+  nth_error (combine l l') i = Some (a, b) -> nth_error l i = Some x -> a = x.
+Proof.
+  revert l' i. induction l as [|y l IH]; intros l' i E H; [destruct i; discriminate|].
+  destruct l' as [|h0 l']; [destruct i; discriminate|]. destruct i as [|i]; simpl in *.
+  - inversion E. inversion H. congruence.
+  - eapply IH; eassumption.
+Qed.
+
+Lemma nth_error_map_combine {A B C} (f : A * B -> C) (l : list A) (l' : list B) i x y :
+  nth_error (map f (combine l l')) i = Some y -> nth_error l i = Some x -> exists b, y = f (x, b).
+Proof.
+  revert l' i. induction l as [|a l IH]; intros l' i E H; [destruct i; discriminate|].
+  destruct l' as [|h0 l']; [destruct i; discriminate|]. destruct i as [|i]; simpl in *.
+  - inversion E. inversion H. subst. eexists. reflexivity.
+  - eapply IH; eassumption.
+Qed.
+
+(* REPLACE keeps every existing row in its place; an existing row changes at most in the listed
+   non-key columns; the given rows that matched no existing row are appended in the order given *)
+Theorem replace_rows_spec strict w fields keys news rows :
+  let out := fst (replace_rows strict w fields keys news rows) in
+  let upd := filter (fun f => negb (existsb (Nat.eqb f) keys)) fields in
+  exists kept app,
+    out = kept ++ app /\ length kept = length rows /\
+    (forall i r r', nth_error rows i = Some r -> nth_error kept i = Some r' ->
+        length r' = length r /\ forall j, ~ In j upd -> nth j r' VNull = nth j r VNull) /\
+    (exists sel : list (nat * row),
+        app = map snd sel /\
+        sel = filter (fun jn => negb (existsb (Nat.eqb (fst jn))
+                 (flat_map (fun h => match h with Some j => [j] | None => [] end)
+                           (map (fun r => first_match (key_of strict keys r) (map (key_of strict keys) news) 0) rows))))
+                     (combine (seq 0 (length news)) news)).
+Proof.
+  cbv zeta. unfold replace_rows. cbn [fst].
+  set (nkeys := map (key_of strict keys) news).
+  set (hits := map (fun r => first_match (key_of strict keys r) nkeys 0) rows).
+  set (upd := filter (fun f => negb (existsb (Nat.eqb f) keys)) fields).
+  eexists. eexists. split; [reflexivity|]. split.
+  - rewrite map_length, combine_length. unfold hits. rewrite map_length. apply Nat.min_id.
+  - split.
+    + intros i r r' Hr Hr'.
+      destruct (nth_error_map_combine _ _ _ _ _ _ Hr' Hr) as [h Eh]. subst r'.
+      destruct h as [j|]; cbn [fst snd].
+      * split; [apply fold_set_nth_cols_length | intros j0 Hj; apply fold_set_nth_cols_other; exact Hj].
+      * split; [reflexivity | intros; reflexivity].
+    + eexists. split; reflexivity.
+Qed.
